@@ -299,6 +299,9 @@ func c13Run(c c13Case) Verdict {
 	}
 	if !c.PerRcpt {
 		v.Classes = append(v.Classes, "plain_backend")
+		if c.Early && !c.RetErr {
+			v.Classes = append(v.Classes, "plain_backend_success_without_reading")
+		}
 	}
 	if c.Prior != "" {
 		v.Classes = append(v.Classes, "after_abandoned_transfer")
@@ -396,6 +399,14 @@ func c13Gen(t *rapid.T) c13Case {
 	// returning early is legitimate only with an error ("r must be consumed
 	// before Data returns" otherwise)
 	c.Early = rapid.IntRange(0, 5).Draw(t, "early") == 0 && c.Panic == "" && c.RetErr
+	if !c.PerRcpt && c.Panic == "" && !c.RetErr && rapid.IntRange(0, 5).Draw(t, "early_success") == 0 {
+		// Outside the documented precondition (success without having read
+		// the message), but C02 counts such backends in and for a backend
+		// with a single result the statement leaves no room: every recipient
+		// gets that result. (With per-recipient statuses the breach makes the
+		// recipients without one unspecified; not generated.)
+		c.Early = true
+	}
 	if c.Early {
 		// a delivery that does not read cannot set statuses "after the read"
 		// in a meaningful order; keep them all before
